@@ -50,20 +50,65 @@ def one_history(seed, steps):
     finally:
         p.cleanup()
 
+
+def directed_recheckout_abort():
+    """SCM-only deterministic checkout (git pinned to a tag) that has to be redone after a recipe change and is aborted:
+    the remote is unavailable (checkout fails), or bob is killed at its n-th state update; the next run must redo it"""
+    import subprocess, tempfile, shutil
+    base = tempfile.mkdtemp(prefix='c05d-'); log = []
+    env = {'GIT_CONFIG_NOSYSTEM': '1', 'GIT_AUTHOR_NAME': 'u', 'GIT_AUTHOR_EMAIL': 'u@example.com', 'GIT_COMMITTER_NAME': 'u', 'GIT_COMMITTER_EMAIL': 'u@example.com', 'HOME': base}
+    def git(cwd, *a):
+        e = dict(os.environ); e.update(env); subprocess.run(['git', *a], cwd=cwd, check=True, stdout=subprocess.DEVNULL, stderr=subprocess.DEVNULL, env=e)
+    try:
+        up = os.path.join(base, 'up'); os.makedirs(up); git(up, 'init', '-q', '-b', 'master')
+        for i in (1, 2, 3):
+            with open(os.path.join(up, 'data%d.txt' % i), 'w') as f: f.write('tag-%d\n' % i)
+            git(up, 'add', '-A'); git(up, 'commit', '-q', '-m', 'c%d' % i); git(up, 'tag', 'v%d' % i)
+        def model(tag, extra=False):
+            scm = [{'scm': 'git', 'url': 'file://' + up, 'tag': tag, 'dir': 'a'}] + ([{'scm': 'git', 'url': 'file://' + up, 'tag': 'v1', 'dir': 'b'}] if extra else [])
+            return {'recipes': {'r0': {'root': True, 'checkoutSCM': scm, 'buildScript': 'ls "$1"/a > out.txt\n[ -d "$1"/b ] && ls "$1"/b >> out.txt || true\n', 'packageScript': 'cp "$1"/out.txt result.txt\n'}}, 'config': {}}
+        variants = [('remote-unavailable', None)] + [('killed-at-update-%d' % n, n) for n in (1, 2, 3, 4, 5, 6)]
+        for what, n in variants:
+            p = P.Project(root=os.path.join(base, 'proj-' + what)); p.env.update(env)
+            p.write(model('v1')); rc, out = p.bob('dev', 'r0')
+            if rc != 0: return None, ['(project does not build: %s)' % out[-200:].replace('\n', ' ')]
+            target = model('v2', extra=(n is not None and n % 2 == 0)); p.write(target)
+            if n is None:
+                os.rename(up, up + '.away'); rc, out = p.bob('dev', 'r0'); os.rename(up + '.away', up)
+            else:
+                rc, out = p.bob('dev', 'r0', env=H.kill_env(p, n))
+            log.append('%s (rc %d)' % (what, rc))
+            lock = os.path.join(p.dir, '.bob-state.lock')
+            if os.path.exists(lock): os.unlink(lock)
+            rc, out = p.bob('dev', 'r0')
+            if rc != 0: return {'kind': 'next-invocation-fails', 'history': log, 'output': out[-500:]}, log
+            inc = H.dist_contents(p, None)
+            c = P.Project(root=os.path.join(base, 'clean-' + what)); c.env.update(env); c.write(target); rc2, out2 = c.bob('dev', 'r0')
+            if rc2 != 0: return None, ['(clean build failed)']
+            ref = H.dist_contents(c, None); c.cleanup(); p.cleanup()
+            for name, dig in ref.items():
+                if inc.get(name) != dig:
+                    return {'kind': 'result-differs-from-clean-build-after-abort', 'package': name, 'history': log, 'what': 'aborted re-checkout of an SCM-only deterministic checkout was treated as done'}, log
+        return None, log
+    except Exception as ex:
+        return None, ['harness problem: %r' % (ex,)]
+    finally:
+        shutil.rmtree(base, ignore_errors=True)
+
 def replay(rep):
     seed = int(os.environ.get('VERIF_SEED', '0') or 0)
     thorough = os.environ.get('VERIF_TIER') == 'thorough'
     n = 40 if thorough else 12; steps = 4 if thorough else 2
     tried = 0; distinct = set(); samples = []; problems = 0
     with cf.ThreadPoolExecutor(max_workers=8) as ex:
-        futs = [ex.submit(one_history, seed * 1000 + i, steps) for i in range(n)]
+        futs = [ex.submit(directed_recheckout_abort)] + [ex.submit(one_history, seed * 1000 + i, steps) for i in range(n)]
         for f in cf.as_completed(futs):
             w, log = f.result(); tried += 1
-            if log and str(log[-1]).startswith('harness problem'): problems += 1; continue
+            if log and (str(log[-1]).startswith('harness problem') or str(log[-1]).startswith('(project does not') or str(log[-1]).startswith('(clean build')): problems += 1; continue
             distinct.add(tuple(log))
             if len(samples) < 3: samples.append({'history': log})
             if w is not None: return {'reproduced': True, 'tried': tried, 'witness': w}
     if problems > tried // 2: return {'reproduced': None, 'detail': 'harness problems in %d of %d cases' % (problems, tried)}
     return {'reproduced': False, 'tried': tried, 'distinct': len(distinct), 'samples': samples,
-            'bound': '%d generated projects, %d edits each, 1-2 aborts (failing step / kill after the n-th state update, n<=30) before every final run' % (n, steps),
+            'bound': 'directed aborted re-checkout of a pinned git checkout (remote unavailable; kill at state update 1..6) + %d generated projects, %d edits each, 1-2 aborts (failing step / kill after the n-th state update, n<=30) before every final run' % (n, steps),
             'detail': 'every run after an abort completed and matched a clean build'}
